@@ -225,15 +225,16 @@ def decoder(run, m, F, E, probe_prefix, classes, table, eb_src, label):
         n += 1
         I = Interp(m, F, E, conv.ConvHooks(eb_src, 4))
         st = c02.class_state(cls, eb_src)
-        its = conv.run_iteration(I, f, st, c03.conv_args(I, f, modes['check_validity'], 0, eb_src), eb_src, 4)
-        its = [it for it in its if it.kind == 'backedge']
-        problems = []
-        if len(its) != 1:
-            problems.append('%d continuing paths for a single well-formed class' % len(its))
+        its_all = conv.run_iteration(I, f, st, c03.conv_args(I, f, modes['check_validity'], 0, eb_src), eb_src, 4)
+        its = [it for it in its_all if it.kind == 'backedge']
+        problems, und = [], []
+        if not its:
+            rej = [it for it in its_all if it.kind == 'ret' and c02.ret_code(it) not in (None, 0)]
+            (problems if rej else und).append('a well-formed sequence of this class is rejected' if rej else 'no continuing path explored for this class')
         for it in its:
             s2 = it.st
             if len(it.stores) != 1:
-                problems.append('%d stores' % len(it.stores))
+                und.append('%d stores on a continuing path, expected the one decoded scalar' % len(it.stores))
                 continue
             v = it.stores[0][4]
             names = dict((conv.unit_atom(eb_src, j), 'u%d' % j) for j in range(4))
@@ -244,7 +245,7 @@ def decoder(run, m, F, E, probe_prefix, classes, table, eb_src, label):
             want = known_bits(want, rngs)
             if got != pad(want, 32):
                 problems.append('decoded value%s is [%s], the standard says [%s]' % (' - 0x%X' % sub if sub else '', B.fmt(got[:22]), B.fmt(pad(want, 22))))
-        run.ob('R01.1', label, not problems, '; '.join(problems) if problems else 'decoded scalar matches the table bit for bit',
+        run.ob('R01.1', label, False if problems else (None if und else True), '; '.join(problems) if problems else (und[0] if und else 'decoded scalar matches the table bit for bit'),
                disc=cls['name'], loc=fn_loc(f))
     return n
 
@@ -260,19 +261,19 @@ def latin1(run, m, F, E):
         I = Interp(m, F, E, conv.ConvHooks(1, 1))
         its = [it for it in conv.run_iteration(I, f8, c02.class_state(cls, 1), [PtrV('OUT'), PtrV('IN'), IntV(64, Lin.atom('n'), 'u')], 1, 1)
                if it.kind == 'backedge']
-        problems = []
-        if len(its) != 1:
-            problems.append('%d continuing paths' % len(its))
+        problems, und = [], []
+        if not its:
+            und.append('no continuing path explored')
         for it in its:
             if len(it.stores) != len(want):
-                problems.append('%d unit(s) stored, expected %d' % (len(it.stores), len(want)))
+                problems.append('%d unit(s) stored for a byte of this class, its UTF-8 form has %d' % (len(it.stores), len(want)))
                 continue
             be = B.BitEval(it.st, {conv.unit_atom(1, 0): 'u0'})
             for k, (ev, w) in enumerate(zip(it.stores, want)):
                 got = be.lin_bits(I.as_u(it.st, ev[4]), 8) if isinstance(ev[4], IntV) else [B.T] * 8
                 if got != pad(w, 8):
                     problems.append('unit %d is [%s], expected [%s]' % (k, B.fmt(got), B.fmt(pad(w, 8))))
-        run.ob('R01.1', 'utf8_convert_from_latin_1', not problems, '; '.join(problems) if problems else 'Latin-1 byte = code point U+00xx, standard UTF-8 form',
+        run.ob('R01.1', 'utf8_convert_from_latin_1', False if problems else (None if und else True), '; '.join(problems) if problems else und[0] if und else 'Latin-1 byte = code point U+00xx, standard UTF-8 form',
                disc=nm, loc=fn_loc(f8))
     for tgt, ebd in (('utf16', 2), ('utf32', 4)):
         f = c02.find(m, F, '_ST_PRIVATE::%s_convert_from_latin_1(' % tgt)
@@ -286,7 +287,7 @@ def latin1(run, m, F, E):
         for it in its:
             be = B.BitEval(it.st, {conv.unit_atom(1, 0): 'u0'})
             if len(it.stores) != 1:
-                problems.append('%d stores' % len(it.stores))
+                problems.append('%d units stored for one byte, expected one' % len(it.stores))
                 continue
             got = be.lin_bits(I.as_u(it.st, it.stores[0][4]), ebd * 8)
             if got != pad(X('u0', 7, 0), ebd * 8):
@@ -453,9 +454,10 @@ def wellformed_accepted(run, m, F, E):
             st = c02.class_state(cls, 1)
             its = conv.run_iteration(I, fn, st, args, 1, 1)
             its = [it for it in its if not (it.kind == 'ret' and c02.st_cursor_at_end(it))]
+            if any(it.kind == 'untracked' for it in its) or not its:
+                run.ob('R01.4', label, None, 'the loop does not move a recognised cursor over the input: class not judged' if its else 'no path explored', disc=cls['name'], loc=fn_loc(fn))
+                continue
             bad = c02.judge_decider(I, its, cls, 1, kind, m)
-            if not its:
-                bad = ['no path explored']
             run.ob('R01.4', label, not bad, bad[0] if bad else 'well-formed sequence accepted unchanged', disc=cls['name'], loc=fn_loc(fn))
     return n
 
